@@ -13,6 +13,7 @@ import (
 	"strconv"
 	"strings"
 	"sync"
+	"sync/atomic"
 	"time"
 
 	appsv1 "k8s.io/api/apps/v1"
@@ -522,6 +523,40 @@ func (r *watchRun) tryRecv() string {
 	}
 }
 
+// watchConcurrently runs f on n goroutines released from a spin barrier and waits for all of them; a panic in any of them is
+// re-raised on the caller.
+func watchConcurrently(n int, f func()) {
+	var ready, goFlag int32
+	var wg sync.WaitGroup
+	var mu sync.Mutex
+	var failure interface{}
+	for i := 0; i < n; i++ {
+		wg.Add(1)
+		go func() {
+			defer wg.Done()
+			defer func() {
+				if r := recover(); r != nil {
+					mu.Lock()
+					failure = r
+					mu.Unlock()
+				}
+			}()
+			atomic.AddInt32(&ready, 1)
+			for atomic.LoadInt32(&goFlag) == 0 {
+			}
+			f()
+		}()
+	}
+	for atomic.LoadInt32(&ready) < int32(n) {
+		runtime.Gosched()
+	}
+	atomic.StoreInt32(&goFlag, 1)
+	wg.Wait()
+	if failure != nil {
+		panic(failure)
+	}
+}
+
 // guarded runs f on its own goroutine: done | panic | blocked
 func watchGuarded(f func()) string {
 	res := make(chan string, 1)
@@ -590,7 +625,9 @@ func runWatchOnce(line string) (string, bool) {
 		case a == "C":
 			out = watchGuarded(r.src.Stop)
 		case a == "S":
-			out = watchGuarded(r.w.Stop)
+			// the consumer's Stop, issued from four goroutines released together: Stop must be safe to call concurrently
+			// (the model's Stop is atomic and idempotent, so this is one Stop to it)
+			out = watchGuarded(func() { watchConcurrently(4, r.w.Stop) })
 		case a == "R":
 			out = r.tryRecv()
 		default:
